@@ -46,6 +46,7 @@ type c13Scope struct {
 type c13World struct {
 	Cfg    config.ServerConfig
 	Scopes []c13Scope
+	Roamer map[string]bool // scope names the multi-scope user "roamer" is assigned to
 	Deny   []string
 	Allow  []string
 	// same-named user "sam" has a different password in every scope it is in
@@ -117,6 +118,25 @@ func c13Config(r *gen.R) *c13World {
 		only := "only-" + s.Name
 		w.Only[s.Name] = only
 		w.Cfg.Users = append(w.Cfg.Users, config.User{Name: only, Scopes: []string{s.Name}, Authenticator: refsrv.Bcrypt("pw-" + only), Commands: []config.Command{permitAll()}, Accounter: refsrv.FileAccounter()})
+	}
+	// a user assigned to several scopes, listed in an order of its own (not the order of the secret
+	// configurations): it exists in exactly those scopes
+	var withUsers []string
+	for _, s := range w.Scopes {
+		if s.HasUsers {
+			withUsers = append(withUsers, s.Name)
+		}
+	}
+	w.Roamer = map[string]bool{}
+	if len(withUsers) >= 2 {
+		p := r.Perm(len(withUsers))
+		n := 2 + r.Intn(len(withUsers)-1)
+		var list []string
+		for _, i := range p[:n] {
+			list = append(list, withUsers[i])
+			w.Roamer[withUsers[i]] = true
+		}
+		w.Cfg.Users = append(w.Cfg.Users, config.User{Name: "roamer", Scopes: list, Authenticator: refsrv.Bcrypt("pw-roamer"), Commands: []config.Command{permitAll()}})
 	}
 	return w
 }
@@ -454,6 +474,17 @@ func c13FullServer(b *mon.B, r *gen.R, caseNo int, w *c13World, ref *refsrv.Ref,
 			}
 			break
 		}
+	}
+	// the multi-scope user exists in exactly the scopes it lists
+	if len(w.Roamer) > 0 {
+		s := pap("roamer", "pw-roamer")
+		if w.Roamer[sc.Name] && s != 1 {
+			b.Violate(caseNo, "C13/server/multi-scope-user-missing-in-assigned-scope", fmt.Sprintf("roamer is assigned to scope %s (among %d scopes) but its login on a connection bound to that scope answered %d", sc.Name, len(w.Roamer), s), nil)
+		}
+		if !w.Roamer[sc.Name] && s == 1 {
+			b.Violate(caseNo, "C13/server/multi-scope-user-in-unassigned-scope", fmt.Sprintf("roamer is not assigned to scope %s but its login on a connection bound to that scope passed", sc.Name), nil)
+		}
+		b.Class("server/multi-scope-user/assigned=%v", w.Roamer[sc.Name])
 	}
 	b.Count("full_server_scope_bindings_confirmed", 1)
 }
